@@ -5,6 +5,7 @@ from engine.driver import Result, viol
 
 ID = "C16"
 LEVEL = "exploration"
+HANG_IS_VIOLATION = True     # every generated case terminates under the model: no reply (twice, then 3x confirmation) is a violation
 ENGINE = "E-hyp"
 TECHNIQUE = "property-based testing against a VFS model: generated mapping sets over a scratch directory tree with inside and outside files carrying unique tokens; requests (canonical, mutated, traversal attempts) through loadFile, preprocessFile(LineNumbers), execVM and #include; strong oracle for canonical requests, containment oracle for all"
 RULE = ("cases = 1-4 mappings (nested virtual prefixes, two roots on one prefix, the root prefix) over a fixed scratch tree (two inside roots with sub directories, one "
